@@ -1,6 +1,7 @@
 """C08 — cmap-only fonts: no character is lost, duplicated or moved across clusters."""
 import os, sys, unicodedata
 import vlib, fontbuild
+import _lattice as L
 
 sys.path.insert(0, os.path.join(os.path.dirname(os.path.dirname(os.path.abspath(__file__))), "gens"))
 
@@ -708,6 +709,16 @@ def thai_stream(ctx, r, n):
                    canon=lambda x: "panic" if x.startswith("panic") else x)
 
 
+LATTICE_RULE = ("font support lattice (tools/props/_lattice.py): every character with a canonical decomposition (key families — "
+                "the scripts with a dedicated shaper, singletons, spaces, multi-level marks — exhaustively, the Latin / Greek / "
+                "CJK bulk sampled in quick), sample Hangul syllables, General Punctuation and the spaces x cmap-only fonts for "
+                "every subset of {c, the halves and inner pieces of its decomposition, U+0020, U+2010, U+2011, U+25CC} x one "
+                "script per shaper (default, arabic, hebrew, thai, hangul, indic, khmer, myanmar, use; dispatch read from the "
+                "compiled crate) and the script of c's block x {c, c + mark, base + c, base + c + mark}; kept: the font maps "
+                "every character of the text (the property's premise); oracle as in `conservation`: per output cluster the "
+                "characters recovered from the glyphs are canonically equivalent to the input characters of the cluster")
+
+
 def run(ctx):
     ctx.assumptions += [
         "canonical equivalence is decided with CPython's unicodedata (Unicode 14): alphabets are restricted to characters assigned there",
@@ -731,7 +742,14 @@ def run(ctx):
     U9 = C09.UData(shim)
     sel_lines = [ln for ln in C09.gen_run_lines(ctx.rng("norm-selectors"), ctx.budget(8000, 150000), U9)
                  if any(c in U9.vs for c, _, _ in C09.parse_text_tok(ln.split()[9]))]
-    ctx.correspond("norm-run-selectors", lines=sel_lines, classify=C09.classify_run)
+    dis = ctx.correspond("norm-run-selectors", lines=sel_lines, classify=C09.classify_run)
+    # a model / crate disagreement is promoted into shape() inputs (the request's own font, one script per shaper), judged by
+    # the conservation oracle; then the font support lattice: every decomposable character x every subset of the glyphs
+    # its normalization can depend on x every shaper, on fonts that map every character of the text
+    env = L.Env(shim)
+    L.promote_norm_run(ctx, shim, env, dis, ctx.budget(40, 300), [L.judge_conservation], "norm-run-selectors")
+    L.search(ctx, shim, env, ctx.rng("lattice"), ("decomposable", "plain"),
+             lambda c, S, text, tag: all(x in S for x in text), [L.judge_conservation], LATTICE_RULE)
     recomposed_witness(ctx, shim)
     callback_search(ctx, shim, U9)
     pair_search(ctx, shim, ctx.rng("pairs"), ctx.budget(1500, 40000), U9)
@@ -740,6 +758,10 @@ def run(ctx):
 
 def replay(ctx, rp):
     shim = vlib.build_harness()
+    if rp.get("stream") == L.STREAM:
+        return L.replay(shim, rp, [L.judge_conservation])
+    if rp.get("stream") == L.PROMOTED:
+        return L.replay_promoted(shim, rp, [L.judge_conservation])
     o = vlib.run_groups(shim, [[rp["font_line"], rp["request"]]], nproc=1)[0]
     print(o[1])
     if "glyph_chars" in rp:
